@@ -160,6 +160,40 @@ def t_step(acc, m, shard, nshard):
                         acc.viol('gnfa_minimize', 'eliminating one state changes the language of the GNFA', inst, repro=rp, observed={'regexp': rx.show(rs)[:300], 'shortest_distinguishing_word': w})
 
 
+def word_re(w):
+    r = ('s', w[-1])
+    for c in reversed(w[:-1]):
+        r = ('.', ('s', c), r)
+    return r
+
+
+def t_step_words(acc, shard, nshard):
+    """The elimination step with LONG labels (wave 6): R1, R3 and R4 are words (concatenations of 2-3, 2 and 5 symbols),
+    R2 is 0, a symbol or a two-letter word.  Both alternatives of the resulting sum have no word shorter than five
+    letters: whatever a simplifier decides by looking at short words only is decided wrongly here."""
+    import itertools
+    W = lambda n: [''.join(t) for t in itertools.product('ab', repeat=n)]
+    k = 0
+    for u in W(2) + W(3):
+        for r2 in [('0',), ('s', 'a'), ('s', 'b'), word_re('ab'), word_re('ba')]:
+            for v in W(2):
+                for w in W(5):
+                    k += 1
+                    if k % nshard != shard:
+                        continue
+                    R = [word_re(u), r2, word_re(v), word_re(w)]
+                    sub = core.Acc()
+                    one_step(sub, R)
+                    acc.states += 1
+                    acc.transitions += 1
+                    acc.evals += 1
+                    acc.validated += 1
+                    acc.nontrivial += 1
+                    for key, recs in sub.viols.items():
+                        for rec in recs:
+                            acc.viol(key[0], key[1], rec.get('instance'), repro={'fn': 'mc.props.c06:one_step', 'mode': 'plain', 'params': {'R': R}}, observed=rec.get('observed'), error=rec.get('error'))
+
+
 def one_step(acc, R):
     R1, R2, R3, R4 = [tup(x) for x in R]
     from collections import defaultdict
@@ -213,6 +247,7 @@ def plan(tier, seed):
     dfa(1, 5, 1, 1, letters='w')
     dfa(2, 5, 0, 4, stride=4, letters='w')
     tasks.extend(('plain', 'mc.props.c06:t_step', {'m': 3, 'shard': s_, 'nshard': 16}) for s_ in range(16))
+    tasks.extend(('plain', 'mc.props.c06:t_step_words', {'shard': s_, 'nshard': 8}) for s_ in range(8))
     for (n, k) in ((1, 1), (1, 2), (2, 1), (2, 2)):
         dfa(n, k, 1, 1, letters='01')
     dfa(3, 1, 1, 2, letters='01')
@@ -241,4 +276,4 @@ def plan(tier, seed):
         bounds = 'RE(9) -> NFA (665 252 trees); alphabets {a,b} and {0,1}; DFA(n<=3,k<=2) d<=2; DFA(4,1) d<=1; name schemes s, q, start/accept'
     return {'tasks': tasks, 'bounds': {'spaces': bounds}, 'exhaustive': True,
             'rule': 'every expression tree with <= m nodes (regexp_to_nfa vs Glushkov automaton, exact); every labelled DFA in the bounds x every state-elimination order reachable with <= d set-order deviations + CPython order (dfa_to_regexp vs the DFA, exact); non-trivial = expression with symbols and >= 4 nodes / DFA with F non-empty and >= 2 reachable states',
-            'assumptions': ['set order = global order per execution (DESIGN 3.4)', 'wave 5: the elimination step gnfa_minimize also from non-initial states (one rip state, labels = all simplified expressions with <= 3 nodes); names start/start2/accept/accept2, non-decimal digits, q9/q10; five-letter alphabets']}
+            'assumptions': ['set order = global order per execution (DESIGN 3.4)', 'wave 5: the elimination step gnfa_minimize also from non-initial states (one rip state, labels = all simplified expressions with <= 3 nodes); names start/start2/accept/accept2, non-decimal digits, q9/q10; five-letter alphabets', 'wave 6: the elimination step with word labels of 2-5 symbols (7 680 combinations): sums whose alternatives have no short word']}
